@@ -20,6 +20,8 @@
 (*   TaskGone{w}          harness: the task of w is being cancelled while  *)
 (*                        it is inside begin() (emitted before the future  *)
 (*                        is dropped)                                      *)
+(*   CommitCut{w, t} RollbackCut{w, t}   harness: the task is being cancelled *)
+(*                        while commit / rollback is in flight              *)
 (*   AutoRollback{} AutoRelease{}    hook sqlite.auto_rollback.* (spawned   *)
 (*                        rollback task; again one event, two steps)       *)
 (*   Final{log, kv}       harness: SELECT of all rows after everything     *)
@@ -114,6 +116,21 @@ StepTaskGone ==
             /\ UNCHANGED <<sem, queue, slot, dirty, db, order, expected, mine, pc, rbSpawned, rbTaken, broken>>
     /\ UNCHANGED taskOf
 
+\* the task of w is being cancelled while commit(permit) / rollback(permit) is in flight (emitted
+\* before the call's future is dropped): whether a cut COMMIT went through shows only in later
+\* reads, so both outcomes are followed
+StepCommitCut ==
+    /\ Ev.ev = "CommitCut"
+    /\ Ev.t = txn[Ev.w]
+    /\ \E c \in BOOLEAN : CutCommit(Ev.w, c)
+    /\ UNCHANGED taskOf
+
+StepRollbackCut ==
+    /\ Ev.ev = "RollbackCut"
+    /\ Ev.t = txn[Ev.w]
+    /\ CutCommit(Ev.w, FALSE)
+    /\ UNCHANGED taskOf
+
 StepAutoRollback ==
     /\ Ev.ev = "AutoRollback"
     /\ \E r \in rbSpawned :
@@ -151,6 +168,7 @@ TraceNext ==
     /\ i' = i + 1
     /\ \/ StepReset \/ StepSpawn \/ StepAcquired \/ StepBegin \/ StepBeginRet \/ StepWrite
        \/ StepCommit \/ StepRollback \/ StepRelease \/ StepPermitDrop \/ StepTaskGone
+       \/ StepCommitCut \/ StepRollbackCut
        \/ StepAutoRollback \/ StepAutoRelease \/ StepFinal
 
 TraceSpec == TraceInit /\ [][TraceNext]_tvars
